@@ -290,4 +290,96 @@ theorem transferDefault_return (ctor : Bool) (d : Option Direction) (ca : Bool) 
   unfold transferDefault
   simp [h1, h2]
 
+/-! ### returned typedef chains (`_get_transfer_default_return`, alias branch) -/
+
+/-- the type of a value declared with a typedef name `g` whose alias chain has the target types `links` -/
+def chainTy (g : Str) (links : List AliasLink) : TyInfo :=
+  { fundamental := none, giname := some g, node := some (.alias links), callbackName := none, ctype := g,
+    isConst := false, isVarargs := false }
+
+/-- the basic rule for a non-const value of fundamental type `f` -/
+def fundDefault (f : Str) : Option Transfer :=
+  transferDefaultReturnBasic
+    { fundamental := some f, giname := none, node := none, callbackName := none, ctype := [], isConst := false,
+      isVarargs := false }
+
+/-- the statement's default for a returned value whose typedef chain has constness `consts` (one entry per
+    typedef, outermost first) and ends in the fundamental `f`: const anywhere along the chain makes it a
+    returned const value (none); otherwise what the fundamental gets (basic types and untyped pointers none,
+    non-const strings full) -/
+def documentedChainDefault (consts : List Bool) (f : Str) : Option Transfer :=
+  if consts.any id then some .none else fundDefault f
+
+theorem chainTy_basic (g : Str) (links : List AliasLink) :
+    isEquivNone (chainTy g links) = false ∧ transferDefaultReturnBasic (chainTy g links) = none := by
+  have hn : isEquivNone (chainTy g links) = false := by simp [isEquivNone, isEquivFund, chainTy]
+  have hb : isEquivBasicGir (chainTy g links) = false := by simp [isEquivBasicGir, isEquivFund, chainTy]
+  have ha : isEquivAny (chainTy g links) = false := by simp [isEquivAny, isEquivFund, chainTy]
+  have hs : isEquivFund (chainTy g links) stringName = false := by simp [isEquivFund, chainTy]
+  have hc : (chainTy g links).isConst = false := rfl
+  refine ⟨hn, ?_⟩
+  unfold transferDefaultReturnBasic
+  simp [hn, hb, ha, hs, hc]
+
+/-- an alias whose target is a typedef name (giname, no fundamental) decides only by its constness -/
+theorem basic_mid (l : AliasLink) (h1 : l.fundamental = none) (h2 : l.giname.isSome = true) :
+    transferDefaultReturnBasic l.ty = if l.isConst then some .none else none := by
+  obtain ⟨g, hg⟩ := Option.isSome_iff_exists.mp h2
+  have hn : isEquivNone l.ty = false := by simp [isEquivNone, isEquivFund, AliasLink.ty, h1, hg]
+  have hb : isEquivBasicGir l.ty = false := by simp [isEquivBasicGir, isEquivFund, AliasLink.ty, h1, hg]
+  have ha : isEquivAny l.ty = false := by simp [isEquivAny, isEquivFund, AliasLink.ty, h1, hg]
+  have hs : isEquivFund l.ty stringName = false := by simp [isEquivFund, AliasLink.ty, h1, hg]
+  have hc : l.ty.isConst = l.isConst := rfl
+  unfold transferDefaultReturnBasic
+  cases hl : l.isConst <;> simp [hn, hb, ha, hs, hc, hl]
+
+/-- an alias whose target is a fundamental: const ⇒ none, else the basic rule of that fundamental -/
+theorem basic_last (l : AliasLink) (f : Str) (h : l.fundamental = some f) :
+    transferDefaultReturnBasic l.ty = if l.isConst then some .none else fundDefault f := by
+  have e : ∀ x, isEquivFund l.ty x = isEquivFund
+      { fundamental := some f, giname := none, node := none, callbackName := none, ctype := [], isConst := false,
+        isVarargs := false } x := by
+    intro x; simp [isEquivFund, AliasLink.ty, h]
+  have hc : l.ty.isConst = l.isConst := rfl
+  unfold fundDefault transferDefaultReturnBasic isEquivBasicGir isEquivAny isEquivNone
+  simp only [e, hc]
+  cases l.isConst <;> simp
+
+theorem fundDefault_none_of_walk (l : AliasLink) (f : Str) (h : l.fundamental = some f)
+    (hb : transferDefaultReturnBasic l.ty = none) : fundDefault f = none ∧ l.isConst = false := by
+  rw [basic_last l f h] at hb
+  cases hl : l.isConst
+  · simp [hl] at hb; exact ⟨hb, rfl⟩
+  · simp [hl] at hb
+
+/-- the chain walk computes the documented default for every well-formed typedef chain -/
+theorem aliasChainDefault_chain (mid : List AliasLink) (last : AliasLink) (f : Str)
+    (hmid : ∀ l ∈ mid, l.fundamental = none ∧ l.giname.isSome = true) (hlast : last.fundamental = some f) :
+    aliasChainDefault (mid ++ [last]) = documentedChainDefault ((mid ++ [last]).map (·.isConst)) f := by
+  induction mid with
+  | nil =>
+    simp only [List.nil_append, aliasChainDefault, List.map_cons, List.map_nil, documentedChainDefault,
+      List.any_cons, List.any_nil, Bool.or_false, id]
+    rw [basic_last last f hlast]
+    cases last.isConst
+    · simp only [Bool.false_eq_true, if_false]
+      cases hf : fundDefault f with
+      | none => simp
+      | some t => rfl
+    · simp
+  | cons l mid ih =>
+    have hl := hmid l (by simp)
+    have ih' := ih (fun x hx => hmid x (by simp [hx]))
+    simp only [List.cons_append, aliasChainDefault, List.map_cons, documentedChainDefault, List.any_cons, id]
+    rw [basic_mid l hl.1 hl.2]
+    cases hc : l.isConst
+    · have hg : l.giname.isNone = false := by
+        cases hgg : l.giname with
+        | none => rw [hgg] at hl; simp at hl
+        | some g => rfl
+      simp only [Bool.false_eq_true, if_false, hg, Bool.false_or]
+      rw [ih']
+      rfl
+    · simp
+
 end GIVerif.Defaults
